@@ -1053,7 +1053,7 @@ impl World {
                         if self.log_on {
                             let d = self.describe_pkts(pk_from);
                             let (sz, seg, dst, dn) = (t.size, t.segment_size, t.destination, self.dgrams.len());
-                            self.logf(|| format!("inc{} tx {}B seg={:?} -> {} dgram#{} {}", inc, sz, seg, dst, dn, d));
+                            self.logf(|| format!("inc{} tx {}B seg={:?} -> {} dgram#{} {} (mtu {})", inc, sz, seg, dst, dn, d, mtu_before));
                         }
                         let b = std::mem::take(&mut buf);
                         self.emit_transmit(node, inc, t, &b, mtu_before);
